@@ -1,4 +1,204 @@
-/- Driver for C07 (stub: not built yet). -/
+/-
+Driver for C07: runs the model of `evaluate` (Model/Evaluate.lean) with the Lean twin of the
+harness's recording forecaster `Rec` (harness/corr/C07.py) and the harness's metrics.  Import-free.
+
+  eval  <cv> <strategy r|u|x> <metric> <return_data T|F> <fit tag none|int> <fail none|k:kind> <labels> <values> <X>
+  split <train> <test> <fh> <labels> <values> <X>
+
+cv: `s|fh|wl|step|iw|sww`, `e|fh|wl|step|sww`, `w|fh|wl`, `c|cutoffs|fh|wl`, `ns`.
+X: `none` or `<labels>:<row>,<row>,…` with row = values joined by `_`.
+-/
+import SkVerif.Model.Evaluate
+import SkVerif.Drv.Parse
 namespace SkVerif.Drv.C07
-def handle (_toks : List String) : String := "bad-op"
+open SkVerif SkVerif.Evaluate SkVerif.Drv
+
+abbrev S := Series Rat
+abbrev XF := Series (List Rat)
+
+/-! ### the recording forecaster's forecasting rule (twin of `Rec` in harness/corr/C07.py) -/
+
+structure RecState where
+  fitD : Rat := 0
+  lastD : Rat := 0
+  k : Nat := 0
+  cutoff : Int := 0
+  ncalls : Nat := 0
+  fitted : Bool := false
+
+def dig (y : S) : Rat :=
+  ((List.range y.length).zip y).foldl (fun acc (j, e) => acc + ((j : Nat) + 1 : Rat) * e.2) 0
+
+def rowDig (r : List Rat) : Rat :=
+  ((List.range r.length).zip r).foldl (fun acc (j, v) => acc + ((j : Nat) + 1 : Rat) * v) 0
+
+def xdig : Option XF → Rat
+  | none => 0
+  | some X => (X.foldl (fun acc e => acc + rowDig e.2) 0) / 2
+
+def rowSum (r : List Rat) : Rat := r.foldl (· + ·) 0
+
+def lastLabel (y : S) (dflt : Int) : Int := match y.getLast? with | some e => e.1 | none => dflt
+
+/-- failure injection: the forecaster raises `kind` at its `k`-th call -/
+def tick (fail : Option (Nat × Err)) (st : RecState) : Except Err RecState :=
+  let st' := { st with ncalls := st.ncalls + 1 }
+  match fail with
+  | some (k, e) => if k == st'.ncalls then .error e else .ok st'
+  | none => .ok st'
+
+def recMachine (fail : Option (Nat × Err)) : Machine RecState Rat (List Rat) where
+  fit st y X fh tag :=
+    match tick fail st with
+    | .error e => .error e
+    | .ok st =>
+      if fh.isEmpty then .error .value
+      else
+        let d := dig y + xdig X + (match tag with | some t => (t : Rat) | none => 0)
+        .ok { st with fitD := d, lastD := d, k := 0, cutoff := lastLabel y st.cutoff, fitted := true }
+  update st y X :=
+    match tick fail st with
+    | .error e => .error e
+    | .ok st =>
+      if !st.fitted then .error .notfitted
+      else .ok { st with lastD := dig y + xdig X, k := st.k + 1, cutoff := lastLabel y st.cutoff }
+  predict st fh X :=
+    match tick fail st with
+    | .error e => .error e
+    | .ok st =>
+      if !st.fitted then .error .notfitted
+      else if fh.isEmpty then .error .value
+      else
+        let xs : Int → Rat := fun L => match X with
+          | none => 0
+          | some X => match X.find? (fun e => e.1 == L) with
+            | some e => rowSum e.2
+            | none => 0
+        .ok (st, fh.map (fun L => (L, st.lastD + st.fitD / 2 + (st.k : Rat) / 4 + ((L - st.cutoff : Int) : Rat) / 8 + xs L)))
+  cutoff st := st.cutoff
+
+/-! ### metrics of the harness, as functions of (y_true, y_pred) -/
+
+def vals (s : S) : List Rat := s.map Prod.snd
+def rabs (q : Rat) : Rat := if q < 0 then -q else q
+def rmax (a b : Rat) : Rat := if a < b then b else a
+def EPS : Rat := 1 / 4503599627370496      -- 2^-52
+def rsum (l : List Rat) : Rat := l.foldl (· + ·) 0
+def rmean (l : List Rat) : Rat := if l.isEmpty then 0 else rsum l / (l.length : Rat)
+
+def mAsym (a b : S) : Rat := rsum ((vals a).zipWith (fun x y => 2 * x - y) (vals b))
+def mWasym (a b : S) : Rat :=
+  rsum (((List.range a.length).zip ((vals a).zip (vals b))).map (fun (j, x, y) => ((j : Nat) + 1 : Rat) * (2 * x - y)))
+def mSym (a b : S) : Rat := rsum ((vals a).zipWith (fun x y => rabs (x - y)) (vals b))
+def mSmape (a b : S) : Rat :=
+  rmean ((vals a).zipWith (fun x y => rabs (2 * rabs (x - y) / rmax (rabs x + rabs y) EPS)) (vals b))
+def mMape (a b : S) : Rat :=
+  rmean ((vals a).zipWith (fun x y => rabs ((x - y) / rmax (rabs x) EPS)) (vals b))
+
+def dfltMetric : Metric Rat Rat := ⟨some "MeanAbsolutePercentageError", mSmape⟩
+
+def parseScoring? (s : String) : Option (Scoring Rat Rat) :=
+  if s == "asym" then some (.some ⟨some "asym", mAsym⟩)
+  else if s == "wasym" then some (.some ⟨some "wasym", mWasym⟩)
+  else if s == "sym" then some (.some ⟨some "sym", mSym⟩)
+  else if s == "mape" then some (.some ⟨some "MeanAbsolutePercentageError", mMape⟩)
+  else if s == "noname" then some (.some ⟨none, mAsym⟩)
+  else if s == "default" then some .none
+  else if s == "notcallable" then some .notCallable
+  else none
+
+/-! ### parsing -/
+
+def parseOInt? (s : String) : Option (Option Int) :=
+  if s == "none" then some none else (parseInt? s).map some
+
+def parseErr? (s : String) : Option Err :=
+  if s == "value" then some .value else if s == "type" then some .type else if s == "key" then some .key
+  else if s == "index" then some .index else if s == "notimpl" then some .notimpl else if s == "attr" then some .attr
+  else none
+
+def parseFail? (s : String) : Option (Option (Nat × Err)) :=
+  if s == "none" then some none
+  else match s.splitOn ":" with
+    | [k, e] => do let k ← k.toNat?; let e ← parseErr? e; pure (some (k, e))
+    | _ => none
+
+def parseSeries? (ls vs : String) : Option S := do
+  let l ← parseIntList? ls
+  let v ← parseRatList? vs
+  if l.length ≠ v.length then none else pure (l.zip v)
+
+def parseRow? (s : String) : Option (List Rat) := (s.splitOn "_").mapM parseRat?
+
+def parseX? (s : String) : Option (Option XF) :=
+  if s == "none" then some none
+  else match s.splitOn ":" with
+    | [ls, rs] => do
+      let l ← parseIntList? ls
+      let rows ← if rs == "-" then some [] else (rs.splitOn ",").mapM parseRow?
+      if l.length ≠ rows.length then none else pure (some (l.zip rows))
+    | _ => none
+
+def parseCV? (s : String) : Option CV :=
+  match s.splitOn "|" with
+  | ["s", fh, wl, step, iw, sww] => do
+    pure (.sliding (← parseIntList? fh) (← parseInt? wl) (← parseInt? step) (← parseOInt? iw) (← parseBool? sww))
+  | ["e", fh, wl, step, sww] => do
+    pure (.expanding (← parseIntList? fh) (← parseInt? wl) (← parseInt? step) (← parseBool? sww))
+  | ["w", fh, wl] => do pure (.single (← parseIntList? fh) (← parseOInt? wl))
+  | ["c", cs, fh, wl] => do pure (.cutoff (← parseIntList? cs) (← parseIntList? fh) (← parseInt? wl))
+  | ["ns"] => some .notSplitter
+  | _ => none
+
+def parseStrategy? (s : String) : Option Strategy :=
+  if s == "r" then some .refit else if s == "u" then some .update else if s == "x" then some .invalid else none
+
+/-! ### printing -/
+
+def showErr : Err → String
+  | .value => "E:value" | .type => "E:type" | .attr => "E:attr" | .index => "E:index" | .key => "E:key"
+  | .notfitted => "E:notfitted" | .notimpl => "E:notimpl" | .other => "E:other"
+
+def showSeries (s : S) : String := s!"{showIntList (labels s)}:{showRatList (vals s)}"
+
+def showX : Option XF → String
+  | none => "none"
+  | some X =>
+    let rows := X.map (fun e => "_".intercalate (e.2.map showRat))
+    s!"{showIntList (labels X)}:{if rows.isEmpty then "-" else ",".intercalate rows}"
+
+def showCall : Call Rat (List Rat) → String
+  | .fit y X fh tag => s!"F~{showSeries y}~{showX X}~{showIntList fh}~{match tag with | some t => toString t | none => "none"}"
+  | .update y X => s!"U~{showSeries y}~{showX X}"
+  | .predict fh X => s!"P~{showIntList fh}~{showX X}"
+
+def showTrace (tr : List (Call Rat (List Rat))) : String :=
+  if tr.isEmpty then "-" else ";".intercalate (tr.map showCall)
+
+def showData (rows : List (Row Rat Rat)) : String :=
+  match rows.mapM (·.data) with
+  | none => "none"
+  | some ds => ";".intercalate (ds.map (fun (a, b, p) => s!"{showSeries a}!{showSeries b}!{showSeries p}"))
+
+def handle (toks : List String) : String :=
+  match toks with
+  | ["eval", cv, strat, met, rd, fp, fail, yl, yv, x] =>
+    match parseCV? cv, parseStrategy? strat, parseScoring? met, parseBool? rd, parseOInt? fp, parseFail? fail,
+          parseSeries? yl yv, parseX? x with
+    | some cv, some strat, some sc, some rd, some fp, some fail, some y, some X =>
+      let r := evaluate (recMachine fail) dfltMetric ({} : RecState) cv y X strat sc fp rd
+      match r.2 with
+      | .error e => s!"err={showErr e} name=- score=- len=- cut=- data=- trace={showTrace r.1}"
+      | .ok t =>
+        s!"err=none name={t.scoreName} score={showRatList (t.rows.map (·.score))} len={showNatList (t.rows.map (·.lenTrain))} cut={showIntList (t.rows.map (·.cutoff))} data={showData t.rows} trace={showTrace r.1}"
+    | _, _, _, _, _, _, _, _ => "bad-op"
+  | ["split", train, test, fh, yl, yv, x] =>
+    match parseIntList? train, parseIntList? test, parseIntList? fh, parseSeries? yl yv, parseX? x with
+    | some train, some test, some fh, some y, some X =>
+      match splitYX y X train test fh with
+      | .error e => s!"err={showErr e}"
+      | .ok p => s!"ytrain={showSeries p.yTrain} ytest={showSeries p.yTest} xtrain={showX p.xTrain} xtest={showX p.xTest}"
+    | _, _, _, _, _ => "bad-op"
+  | _ => "bad-op"
+
 end SkVerif.Drv.C07
